@@ -12,10 +12,12 @@
    [spec_session], what every call must return according to that reading; [monitor], stickiness as a
    function of calls and results alone.
 
-   All theorems are for [dev_none].  The code as it is needs one deviation, B2 (Reset returns a failing
-   option's error without recording it): [c20_dev_B2_refutes] shows that it breaks the property. *)
+   All theorems are for [dev_none], the model of the code as it is after the fixes B1, B2 (fc92270) and B3
+   (496ee11: setErr keeps the first error, Plan() checks the sticky error first and records its own
+   use-after-emit error, Reset clears the error first).  [c20_dev_B2_refutes] and [c20_pre_B3_refuted] show
+   that the earlier behaviours break the property. *)
 From Coercion.Base Require Import Plan.
-From Coercion.Builder Require Import Model Spec Proofs ProofsSession ProofsMonitor ProofsClauses Examples.
+From Coercion.Builder Require Import Model ModelPreB3 Spec Proofs ProofsSession ProofsMonitor ProofsClauses Examples.
 
 (* no call ever panics *)
 Theorem c20_never_panics :
@@ -39,7 +41,8 @@ Proof. exact parse_total. Qed.
 Print Assumptions c20_parse_total.
 
 (* clause 1, written out: if the calls up to the first Plan() contain no misuse, each returns ok, Plan()
-   returns exactly the tree the parser built from them, and every later call fails (use after emit) *)
+   returns exactly the tree the parser built from them; the call after it is then the first misuse (use after
+   emit) and its error value is what it and every later call, Plan() included, return *)
 Theorem c20_valid_calls_emit_parse :
   forall (a : parg) (body r : list call),
     bad_plan a = None -> no_reset body = true ->
@@ -47,7 +50,7 @@ Theorem c20_valid_calls_emit_parse :
     run_session dev_none (a, body) =
     ok_res :: repeat ok_res (p_n (parse (fresh a) body))
            ++ emit_res (p_val (parse (fresh a) body))
-           :: done_results None (S (S (p_n (parse (fresh a) body)))) r.
+           :: done_results (S (S (p_n (parse (fresh a) body)))) r.
 Proof. exact valid_calls_emit_parse. Qed.
 Print Assumptions c20_valid_calls_emit_parse.
 
@@ -71,9 +74,9 @@ Proof. exact reset_starts_afresh. Qed.
 Print Assumptions c20_reset_starts_afresh.
 
 (* stickiness as a monitor over calls and results alone (the same function is evaluated on what the
-   real builder returned): no panic; an error, once returned, is returned by every call and by Plan()
-   until Reset, with no tree; a Reset that fails leaves its own error in force; after a successful
-   Plan() every call returns a use-after-emit error *)
+   real builder returned), with NO exemption for use after emit: no panic; the first misuse - a call after
+   the plan was emitted included - is the error value that every later call and Plan() return, with no
+   tree, until Reset; a Reset that fails leaves its own error in force *)
 Theorem c20_sticky_monitor :
   forall x : session, monitor x (run_session dev_none x) = true.
 Proof. exact monitor_holds. Qed.
@@ -85,6 +88,14 @@ Theorem c20_dev_B2_refutes :
   monitor b2_witness (run_session dev_only_B2 b2_witness) = false.
 Proof. exact dev_B2_refutes. Qed.
 Print Assumptions c20_dev_B2_refutes.
+
+(* B3: the builder before 496ee11 (Model PreB3: setErr overwrites, "after Plan()" branches first, Plan() twice
+   returns an unrecorded error) violates the monitor on New; Plan(); AddBlock(""); Up(); Plan() - the fixed one does not *)
+Theorem c20_pre_B3_refuted :
+  monitor b3_witness (PreB3.run_session dev_none b3_witness) = false
+  /\ monitor b3_witness (run_session dev_none b3_witness) = true.
+Proof. exact (conj pre_B3_refuted post_B3_holds). Qed.
+Print Assumptions c20_pre_B3_refuted.
 
 (* ---- not vacuous ---- *)
 Example c20_ex_parse :
